@@ -16,7 +16,8 @@ META = {
             "simplifier.make_changes, the cross-rank merge of the rewriting results, is verified as a whole for all N, P and every rank with the SPMD rule for its gather/bcast pairs "
             "(guarantee proved at the sending rank, rely assumed at the receiver): afterwards the replicated string list is the concatenation of the ranks' local lists in rank order, "
             "expressions and maps are taken (copied) exactly where a string changed; the all-to-all exchange of the printed strings in initial_sympify is verified the same way "
-            "(every rank ends with the concatenation of the ranks' lists in rank order). The dictionary merge of initial_sympify and the gathers of do_sympy / simplify_inv_subs / "
+            "(every rank ends with the concatenation of the ranks' lists in rank order), and so is the tail of shape_to_functions that gathers the rewritten trees (the three parallel "
+            "lists -- tree, string, string of the original -- are joined in rank order and stay aligned). The dictionary merge of initial_sympify and the gathers of do_sympy / simplify_inv_subs / "
             "check_results are not lifted deductively; they are covered by the structural obligations and the bounded runs.",
     "note": "A-mpi (stand-in delivers collectives in rank order like MPI), A-hash (hash seed fixed per run). Bounded: core_maths/ext_maths, complexities in evidence.",
     "technique": "contract-based deductive verification of the partition function + bounded multi-process stand-in of generation",
@@ -43,6 +44,13 @@ def check(run):
     if st4 == "proved" and D.canary(run, "generation/simplifier.py", "initial_sympify", c_spmd.initial_sympify_merge_contract) is False:
         raise RuntimeError("canary verified: engine vacuous on the exchange region of initial_sympify")
     failed3 = list(failed3) + list(failed4)
+    for root in (True, False):
+        st5, failed5, _e5 = D.verify_function(run, "generation/generator.py", "shape_to_functions", (lambda root=root: c_spmd.stf_gather_contract(root)), timeout_ms=10000,
+                                              tag="gather %s" % ("root" if root else "other ranks"),
+                                              note="region: gather / itertools.chain / bcast of the three parallel lists of rewritten trees (SPMD rule; prefix sums of the per-rank counts)")
+        failed3 = list(failed3) + list(failed5)
+    if D.canary(run, "generation/generator.py", "shape_to_functions", (lambda: c_spmd.stf_gather_contract(True))) is False:
+        raise RuntimeError("canary verified: engine vacuous on the gather tail of shape_to_functions")
     lfailed = D.prove_lemmas(run, "make_changes: slice starts", c_spmd.lo_lemmas())
     if st3 == "proved" and D.canary(run, "generation/simplifier.py", "make_changes", c_spmd.make_changes_contract) is False:
         raise RuntimeError("canary verified: engine vacuous on make_changes")
@@ -59,7 +67,7 @@ def check(run):
     if (failed3 or lfailed) and not merge_found:
         from checks.C14 import report_unproved
         if failed3:
-            report_unproved(run, failed3, False, "cross-rank merge (make_changes / initial_sympify exchange)")
+            report_unproved(run, failed3, False, "cross-rank merge (make_changes / initial_sympify exchange / shape_to_functions gather)")
         else:
             run.violation("lemma:" + lfailed[0][0][:60], "lemma about the slice starts is no longer proved: %s" % lfailed[0][0], {"lemma": lfailed[0][0], "model": str(lfailed[0][1])[:2000]}, no_input=True)
     sfailed = D.structural_spmd(run, ["generation/generator.py", "generation/simplifier.py", "generation/duplicate_checker.py"], "generation")
